@@ -12,17 +12,22 @@ use crate::tables::{BlockEntry, BlockTable, HashTable};
 static mut CODEC_SHRINKS: bool = false;
 static mut CODEC_PAYLOAD: [u8; 4] = [0; 4];
 const CODEC_LEN: usize = 3;
-static mut ORIG: [u8; 8] = [0; 8];
-static mut ORIG_LEN: usize = 0;
+static mut ORIG: [[u8; 512]; 2] = [[0; 512]; 2];
+static mut ORIG_LEN: [usize; 2] = [0; 2];
+static mut ORIG_N: usize = 0;
 
 fn compress_stub(data: &[u8], method: u8) -> Result<Vec<u8>> {
     unsafe {
-        if CODEC_SHRINKS && data.len() > CODEC_LEN + 1 && data.len() <= 8 {
-            ORIG_LEN = data.len();
-            ORIG[..data.len()].copy_from_slice(data);
+        if CODEC_SHRINKS && data.len() > CODEC_LEN + 1 && data.len() <= 512 && ORIG_N < 2 {
+            let k = ORIG_N;
+            ORIG_N += 1;
+            ORIG_LEN[k] = data.len();
+            ORIG[k][..data.len()].copy_from_slice(data);
             let mut v = Vec::with_capacity(1 + CODEC_LEN);
             v.push(method);
-            v.extend_from_slice(&CODEC_PAYLOAD[..CODEC_LEN]);
+            // the payload identifies which original it stands for
+            v.push(k as u8);
+            v.extend_from_slice(&CODEC_PAYLOAD[..CODEC_LEN - 1]);
             Ok(v)
         } else {
             Ok(data.to_vec())
@@ -32,10 +37,11 @@ fn compress_stub(data: &[u8], method: u8) -> Result<Vec<u8>> {
 
 fn decompress_stub(data: &[u8], _method: u8, expected: usize) -> Result<Vec<u8>> {
     unsafe {
-        if data.len() == CODEC_LEN && data[0] == CODEC_PAYLOAD[0] && data[1] == CODEC_PAYLOAD[1]
-            && data[2] == CODEC_PAYLOAD[2] && expected == ORIG_LEN
+        if data.len() == CODEC_LEN && (data[0] as usize) < ORIG_N && data[1] == CODEC_PAYLOAD[0] && data[2] == CODEC_PAYLOAD[1]
+            && expected == ORIG_LEN[data[0] as usize]
         {
-            Ok(ORIG[..ORIG_LEN].to_vec())
+            let k = data[0] as usize;
+            Ok(ORIG[k][..ORIG_LEN[k]].to_vec())
         } else {
             Err(Error::compression("abstract codec: not the stream that was produced"))
         }
@@ -120,7 +126,7 @@ macro_rules! single_unit {
     ($name:ident, $comp:expr, $shrinks:expr, $enc:expr, $fix:expr, $crc:expr, $stored:expr, $lookup:expr) => {
         path_harness!($name, {
             let data: [u8; 5] = kani::any();
-            unsafe { CODEC_SHRINKS = $shrinks; CODEC_PAYLOAD = kani::any(); }
+            unsafe { CODEC_SHRINKS = $shrinks; CODEC_PAYLOAD = kani::any(); ORIG_N = 0; }
             let cfg = Cfg { compression: $comp, encrypt: $enc, fix_key: $fix, crc: $crc, file_pos: 32 };
             roundtrip(&data, $stored, $lookup, &cfg);
         });
@@ -138,16 +144,57 @@ single_unit!(c01d_su_enc_fix_codec,    2, true,  true,  true,  false, "a\\b.txt"
 single_unit!(c01d_su_enc_fix_codec_crc, 2, true, true,  true,  true,  "a\\b.txt", "a\\b.txt");
 single_unit!(c01d_su_enc_crc,          0, false, true,  false, true,  "a\\b.txt", "a\\b.txt");
 
+// ---- multi-sector files: 513 bytes at sector size 512 (two sectors); the last 4 bytes of sector 0 and the
+// single byte of sector 1 are symbolic, the rest is concrete (a chained cipher over 128 symbolic words is
+// SAT-infeasible)
+macro_rules! multi_sector {
+    ($name:ident, $comp:expr, $shrinks:expr, $enc:expr, $fix:expr, $crc:expr) => {
+        #[kani::proof]
+        #[kani::unwind(132)]
+        #[kani::stub(std::fmt::format, vio::fmt_stub)]
+        #[kani::stub(<std::fs::File as std::io::Read>::read, memfile::mem_read)]
+        #[kani::stub(<std::fs::File as std::io::Read>::read_buf, memfile::mem_read_buf)]
+        #[kani::stub(<std::fs::File as std::io::Seek>::seek, memfile::mem_seek)]
+        #[kani::stub(crate::compression::compress::compress, compress_stub)]
+        #[kani::stub(crate::compression::decompress::decompress, decompress_stub)]
+        fn $name() {
+            let mut data = [0x11u8; 513];
+            let tail: [u8; 5] = kani::any();
+            data[508..513].copy_from_slice(&tail);
+            unsafe { CODEC_SHRINKS = $shrinks; CODEC_PAYLOAD = kani::any(); ORIG_N = 0; }
+            let cfg = Cfg { compression: $comp, encrypt: $enc, fix_key: $fix, crc: $crc, file_pos: 32 };
+            let (mut a, stored, _flags) = write_and_open(&data, "a\\b.txt", &cfg);
+            kani::cover!(stored > 0);
+            let r = a.read_file("A/b.TXT");
+            assert!(r.is_ok(), "multi-sector file written by the builder cannot be read back");
+            let got = r.unwrap();
+            assert!(got.len() == 513, "read length differs from written length");
+            let i: usize = kani::any();
+            kani::assume(i < 513);
+            assert!(got[i] == data[i], "read content differs from written content");
+            std::mem::forget((a, got));
+        }
+    };
+}
+multi_sector!(c01d_ms_plain,          0, false, false, false, false);
+multi_sector!(c01d_ms_plain_crcflag,  0, false, false, false, true);
+multi_sector!(c01d_ms_codec,          2, true,  false, false, false);
+multi_sector!(c01d_ms_codec_crc,      2, true,  false, false, true);
+multi_sector!(c01d_ms_enc,            0, false, true,  false, false);
+multi_sector!(c01d_ms_enc_fix,        0, false, true,  true,  false);
+multi_sector!(c01d_ms_enc_codec,      2, true,  true,  false, false);
+multi_sector!(c01d_ms_enc_fix_codec,  2, true,  true,  true,  false);
+
 path_harness!(c01d_empty_file, {
     let data: [u8; 0] = [];
-    unsafe { CODEC_SHRINKS = false; }
+    unsafe { CODEC_SHRINKS = false; ORIG_N = 0; }
     let cfg = Cfg { compression: 0, encrypt: kani::any(), fix_key: kani::any(), crc: false, file_pos: 32 };
     roundtrip(&data, "e", "E", &cfg);
 });
 
 path_harness!(c01d_absent_name_not_found, {
     let data: [u8; 3] = kani::any();
-    unsafe { CODEC_SHRINKS = false; }
+    unsafe { CODEC_SHRINKS = false; ORIG_N = 0; }
     let cfg = Cfg { compression: 0, encrypt: false, fix_key: false, crc: false, file_pos: 32 };
     let (mut a, _s, _f) = write_and_open(&data, "a\\b.txt", &cfg);
     let r = a.read_file("a\\c.txt");
